@@ -97,7 +97,14 @@ let reply (r : 'a M.res) (f : 'a -> string) : string =
   match r with
   | M.Ok a -> "ok " ^ f a
   | M.Err _ -> "err"
-  | M.Panic _ -> "panic"
+  | M.Panic site ->
+      let b i x = if x then 1 lsl i else 0 in
+      let rec go (s : M.string) acc = match s with
+        | M.EmptyString -> acc
+        | M.String (M.Ascii (b0, b1, b2, b3, b4, b5, b6, b7), r) ->
+            let c = Char.chr (b 0 b0 + b 1 b1 + b 2 b2 + b 3 b3 + b 4 b4 + b 5 b5 + b 6 b6 + b 7 b7) in
+            go r (acc ^ String.make 1 (if c = ' ' then '_' else c)) in
+      "panic " ^ go site ""
   | M.OutOfFuel -> "fuel"
 
 let pk_dump (pk : M.publicKey) =
